@@ -310,6 +310,13 @@ func (e *Engine) generate(prop string, only func(*ssa.Function) bool) *runResult
 		for _, o := range vc.obs {
 			if prop == "" || hasTag(o.Tags, prop) {
 				res.obs = append(res.obs, o)
+			} else if o.assertIdx > 0 {
+				// an obligation of another property: this check does not decide it, so it does not lean on it either
+				// (a check is self-contained: what it reports does not depend on another check having been run)
+				if vc.foreignOb == nil {
+					vc.foreignOb = map[int]bool{}
+				}
+				vc.foreignOb[o.assertIdx-1] = true
 			}
 		}
 	}
